@@ -8,7 +8,7 @@ env.pop("GOTOOLCHAIN", None); env.pop("GOSUMDB", None)
 def sh(cmd, cwd=None, timeout=6000):
     p = subprocess.run(cmd, shell=True, cwd=cwd, env=env, stdout=subprocess.PIPE, stderr=subprocess.STDOUT, text=True, errors="replace", timeout=timeout)
     return p.returncode, p.stdout
-ids = sys.argv[1:] or sorted(os.listdir(os.path.join(V, "seeded")))
+ids = sys.argv[1:] or sorted(d for d in os.listdir(os.path.join(V, "seeded")) if d.startswith("C"))
 tier = os.environ.get("SEED_TIER", "quick")
 rc, st = sh("git -C /repo status --porcelain")
 assert st.strip() == "", "/repo not clean:\n" + st
